@@ -385,6 +385,9 @@ func (p *Prog) callEffects(fi *FuncInfo, info *types.Info, call *ast.CallExpr, e
 				e.Ghost[cat] = true
 			}
 		}
+		if strings.HasSuffix(full, "opa/rego.Rego.PrepareForEval") || strings.HasSuffix(full, "opa/rego.PreparedEvalQuery.Eval") {
+			e.Ghost["opa"] = true
+		}
 		switch full {
 		case "time.Now":
 			e.Nondet["time.Now:"+fi.Name] = "time.Now at " + p.pos(call)
